@@ -93,4 +93,13 @@ MUTANTS = [
     ("struct-unbound-to-false", ["C09"], P, "                        raise AnnotationError(\n                            f\"Cannot process composite structure", "                        return False\n                        raise AnnotationError(\n                            f\"Cannot process composite structure"),
     ("struct-suffix-any", ["C09"], P, "                    if any(not has_structure(x) for x in dummy_leaves):", "                    if all(not has_structure(x) for x in dummy_leaves):"),
     ("struct-ellipsis-middle-allowed", ["C09"], P, "                    if (piece_index == 0) or (piece_index == len(pieces) - 1):\n                        if piece == \"...\":\n                            continue", "                    if piece == \"...\":\n                        continue"),
+    ("treepath-prefix-dropped", ["C16"], A, "            if cls_dim.treepath:\n                name = get_treepath_memo() + cls_dim.name", "            if cls_dim.treepath:\n                get_treepath_memo(); name = '?' + cls_dim.name"),
+    ("treepath-variadic-prefix-dropped", ["C16"], A, "                if variadic_dim.treepath:\n                    name = get_treepath_memo() + variadic_dim.name", "                if variadic_dim.treepath:\n                    get_treepath_memo(); name = '?' + variadic_dim.name"),
+    ("treepath-constant-leaf-index", ["C16"], P, "                    set_treepath_memo(leaf_index, cls.structure)", "                    set_treepath_memo(0, cls.structure)"),
+    ("treepath-not-cleared-between-leaves", ["C16"], P, "                if cls.structure is not None:\n                    clear_treepath_memo()\n        finally:", "                pass\n        finally:"),
+    ("treepath-not-cleared-finally", ["C16"], P, "            if cls.structure is not None:\n                clear_treepath_memo()\n        return True", "            pass\n        return True"),
+    ("nested-clears-outer-label", ["C16"], P, "                if cls.structure is not None:\n                    clear_treepath_memo()\n        finally:", "                clear_treepath_memo()\n        finally:"),
+    ("flatten-flag-not-reentrant", ["C16"], P, "            if not already_flattening:\n                clear_treeflatten_memo()", "            clear_treeflatten_memo()"),
+    ("treepath-same-as-plain", ["C16"], A, "            if cls_dim.treepath:\n                name = get_treepath_memo() + cls_dim.name", "            if cls_dim.treepath:\n                get_treepath_memo(); name = cls_dim.name"),
+    ("ambiguity-check-dropped", ["C16"], S, "    if hasattr(_treepath_storage, \"value\") and _treepath_storage.value is not None:\n        raise AnnotationError(", "    if False:\n        raise AnnotationError("),
 ]
